@@ -228,7 +228,7 @@ def _plan(tier):
 
 def run(rep: Report):
     tier = rep.tier
-    opts = {"prove_timeout_ms": 15000 if tier == "quick" else 60000, "fork_timeout_ms": 2000, "seed": rep.seed, "scenario_wall_s": 240 if tier == "quick" else 1500}
+    opts = {"prove_timeout_ms": 15000 if tier == "quick" else 60000, "fork_timeout_ms": 2000, "seed": rep.seed, "scenario_wall_s": 900 if tier == "quick" else 1500}
     run_plan(rep, _plan(tier), SCENARIOS, opts)
     rep.bounds = {"atoms": "2 (quick) / 3 (thorough)", "fixed subsets": "all subsets (solver-driven enumeration)", "moves": "d, d*2, d+d, rotation of a molecule, Hamiltonian (Verlet 1 step), one force-bias step (rejection loop unwound 2x)", "FixRot geometries": list(GEOMS)}
     rep.assumptions = ["masses dyadic in the FixCom scenarios (exact float sums); PES/forces uninterpreted", "FixRot: geometry and masses concrete (LAPACK eigen-decomposition), momenta symbolic; the adjustment is linear in the momenta, so its coefficient matrix decides all momenta at once (tolerance 1e-9 relative to the geometry scale)", "ase euler_rotate by contract (rigid rotation)"]
